@@ -63,9 +63,11 @@ type box struct {
 	injecting bool
 	curHeight int64
 
-	concurrent bool
-	prevDump   map[string][]byte
-	stuck      string
+	concurrent  bool
+	twinPull    bool // record VerifTwinPull at every BeginBlock (OLBOX_TWINPULL=1; only after boot)
+	pendingTwin string
+	prevDump    map[string][]byte
+	stuck       string
 
 	out     *json.Encoder
 	panicFl int32
@@ -237,6 +239,7 @@ func (b *box) boot(root string) error {
 	b.stateDB = *(*dbm.DB)(unsafe.Pointer(f.UnsafeAddr()))
 	b.bs = b.node.BlockStore()
 	b.blockExec = sm.NewBlockExecutor(b.stateDB, tmlog.NewNopLogger(), b.node.ProxyApp().Consensus(), b.node.Mempool(), b.node.EvidencePool())
+	b.twinPull = os.Getenv("OLBOX_TWINPULL") != ""
 	b.blockExec.SetEventBus(b.node.EventBus())
 	b.state = sm.LoadState(b.stateDB)
 	return nil
@@ -682,6 +685,17 @@ func (b *box) atBoundary(point string) {
 }
 
 func (b *box) before(method string, req interface{}) {
+	if rq, ok := req.(abci.RequestBeginBlock); ok && method == "BeginBlock" && b.twinPull {
+		// what a node started right now would pull as this block's reward (fresh calculator, no cache)
+		amt, err := b.app.VerifTwinPull(rq.Header.Height)
+		b.mu.Lock()
+		if err != nil {
+			b.pendingTwin = "error: " + err.Error()
+		} else {
+			b.pendingTwin = amt
+		}
+		b.mu.Unlock()
+	}
 	switch method {
 	case "BeginBlock", "DeliverTx", "EndBlock", "Commit":
 		b.atBoundary(b.boundary("before", method))
@@ -722,6 +736,9 @@ func (b *box) after(method string, req, resp interface{}) {
 		c.ValUpdates = valUpdates(r.Validators)
 	case abci.ResponseBeginBlock:
 		c.Events = events(r.Events)
+		b.mu.Lock()
+		c.TwinPull, b.pendingTwin = b.pendingTwin, ""
+		b.mu.Unlock()
 		if rq, ok := req.(abci.RequestBeginBlock); ok {
 			c.Height = rq.Header.Height
 			b.mu.Lock()
